@@ -4,6 +4,6 @@ PROPS=${@:-C01 C02 C03 C04 C05 C06 C07 C08 C09 C10 C11 C12 C13 C14 C15 C16 C17 C
 cd "$(dirname "$0")/.."
 for p in $PROPS; do
   echo "== $p thorough start $(date +%T)"
-  bin/check $p --tier thorough 2>&1 | grep -E "^VIOLATION|^  key|seed=|HARNESS|BUILD FAILED" | cut -c1-300
+  bin/check $p --tier thorough ${THOR_SEED:+--seed $THOR_SEED} 2>&1 | grep -E "^VIOLATION|^  key|seed=|HARNESS|BUILD FAILED" | cut -c1-300
 done
 echo "== all done $(date +%T)"
